@@ -19,7 +19,7 @@ func verifHarness_C07_SchedulerProtocol() {
 	rt.PreemptionBound(0)
 	steps := 4
 	if rt.Tier() > 0 {
-		steps = 7
+		steps = 5 // (7 steps did not finish within the two-hour budget: about ten times more paths per step)
 	}
 	rt.Bound("steps", steps)
 	rt.MustCover("learner:succeeded", "learner:failed", "learner:abandoned", "learner:retry-on-largest", "learner:background", "background:queued", "stream:done")
